@@ -568,6 +568,25 @@ impl Env<'_> {
             f(p.fleet.vehicles[vi].limits.get_or_insert(api::VehicleLimits { max_distance: None, max_duration: None, tour_size: None }));
             p
         };
+        // shared reload resource lowered below what the tours take from it: in every dimension, and in one dimension only
+        if ti == 0 {
+            for (ri, res) in self.problem.fleet.resources.iter().flatten().enumerate() {
+                let api::VehicleResource::Reload { capacity, .. } = res;
+                let with = |f: &dyn Fn(&mut Vec<i32>)| {
+                    let mut p = self.problem.clone();
+                    if let Some(api::VehicleResource::Reload { capacity, .. }) = p.fleet.resources.as_mut().and_then(|r| r.get_mut(ri)) {
+                        f(capacity);
+                    }
+                    p
+                };
+                self.breach("resource.lowered", &format!("resource {ri}"), true, Some(&with(&|c| c.iter_mut().for_each(|x| *x = 0))), self.base, Some(&["shared-resource"]))?;
+                for d in 0..capacity.len().min(2) {
+                    if capacity.len() >= 2 {
+                        self.breach("resource.lowered-in-one-dimension", &format!("resource {ri} dimension {d}"), true, Some(&with(&|c| c[d] = 0)), self.base, Some(&["shared-resource"]))?;
+                    }
+                }
+            }
+        }
         if size >= 2 {
             self.breach("limit.tour-size", site, far, Some(&variant(&|l| l.tour_size = Some(size - 1))), self.base, Some(&["tour-size"]))?;
             self.accept("limit-exact.tour-size", Some(&variant(&|l| l.tour_size = Some(size))), self.base)?;
@@ -587,7 +606,16 @@ impl Env<'_> {
         if let Some(d) = (0..dims).max_by_key(|d| peak(*d)).filter(|d| peak(*d) >= 1) {
             let mut p = self.problem.clone();
             p.fleet.vehicles[vi].capacity[d] = peak(d) - 1;
-            let name = if tour.stops.len() == 1 { "single-stop-tour.capacity.lowered" } else { "capacity.lowered" };
+            // the peak is reported only by a departure stop that is directly followed by a reload stop: a load interval without any leg
+            let before_reload = tour.stops[0].activities().iter().any(is_customer) && tour.stops.get(1).is_some_and(|n| n.activities().first().is_some_and(|a| a.activity_type == "reload"));
+            let only_at_start = tour.stops.iter().enumerate().all(|(si, s)| si == 0 || s.load().get(d).copied().unwrap_or(0) < peak(d));
+            let name = if tour.stops.len() == 1 {
+                "single-stop-tour.capacity.lowered"
+            } else if before_reload && only_at_start {
+                "departure-stop-before-reload-stop.capacity.lowered"
+            } else {
+                "capacity.lowered"
+            };
             self.breach(name, &format!("tour {ti} dimension {d}"), far, Some(&p), self.base, Some(&["capacity"]))?;
         }
         Ok(())
@@ -720,6 +748,25 @@ impl Prop for CheckerProp {
         let relations = self.relations;
         (problem_spec(tier.pick(10, 16)), config_spec(30), prop_oneof![3 => Just(2u16), 1 => 3u16..=240])
             .prop_map(move |(mut spec, config, delta)| {
+                // docs (jobs.md): "Use tag property on each job place if you want to use initial solution or checker features"
+                spec.features &= !F_UNTAGGED;
+                // every 4th case: small vehicles with shared reloads, so that reloads and their shared resource are really used
+                if spec.shared_resource_capacity % 4 == 0 {
+                    spec.features |= F_RELOADS;
+                    spec.features &= !F_WINDOWS;
+                    spec.vehicles.iter_mut().for_each(|v| {
+                        v.capacity.iter_mut().for_each(|c| *c = (*c).min(4).max(2));
+                        v.shifts.iter_mut().for_each(|sh| {
+                            if sh.reloads.is_empty() {
+                                sh.reloads.push(ReloadSpec { loc: sh.start_loc, duration: 0, window: None, shared: true });
+                            }
+                            sh.reloads.iter_mut().for_each(|r| {
+                                r.shared = true;
+                                r.window = None;
+                            });
+                        });
+                    });
+                }
                 if relations {
                     // relations support only jobs with one place and at most one time window (E1203): make them frequent
                     spec.features &= !F_MULTI;
